@@ -837,7 +837,7 @@ fn compare(c: &mut Ctx) {
 
 pub fn run(rc: &mut RunCtx) {
     let seed = rc.seed;
-    let n = rc.n(400, 6000);
+    let n = rc.n(1000, 8000);
     for i in 0..n {
         let id = format!("api:{}", i);
         if !rc.mine(&id) {
